@@ -5,7 +5,8 @@ MODULES = ["contracts.comm", "contracts.netservice"]
 _N = "bacpypes.netservice:"
 FUNCTIONS = ([_N + "NetworkServiceAccessPoint.process_npdu[router, from network %d]" % n for n in (1, 2, 3)]
              + [_N + "NetworkServiceAccessPoint.process_npdu[station, from network 1]", _N + "NetworkServiceAccessPoint.indication"]
-             + [_N + "NetworkServiceElement.WhoIsRouterToNetwork[router, asked on network %d]" % n for n in (1, 2, 3)])
+             + [_N + "NetworkServiceElement.WhoIsRouterToNetwork[router, asked on network %d]" % n for n in (1, 2, 3)]
+             + [_N + "NetworkServiceElement.IAmRouterToNetwork[station, heard on network 1]", _N + "NetworkServiceElement.IAmRouterToNetwork[router, heard on network 2]"])
 LEMMAS = []
 MIN_OBLIGATIONS = 15
 BOUNDED = "bounded.c06"
@@ -17,7 +18,7 @@ ASSUMPTIONS = [
     "whole-internetwork claims (every station of the target network exactly once, termination on cyclic topologies) = composition of the per-node contracts: every hop lowers the hop count by one and never uses the arrival network, the last hop puts exactly one frame on the target network; the composition over a topology is not machine-checked as a whole",
 ]
 NOT_DECIDED = [
-    "release of packets waiting for a path when the I-Am-Router-To-Network arrives (NetworkServiceElement.IAmRouterToNetwork), routers whose local adapter is not network 1, network-number learning",
+    "routers whose local adapter is not network 1, network-number learning",
     "random topologies as such (see the composition assumption)",
 ]
 EXPLANATION = ("A frame arriving from an attached network is handed to the local application exactly once iff it is addressed to this station, to its network or to everybody "
@@ -28,6 +29,6 @@ EXPLANATION = ("A frame arriving from an attached network is handed to the local
                "behind a known router goes once to that router with the DADR kept, and for an unknown network nothing is forwarded and the path is asked for on every other "
                "network; a packet addressed to the network it came from is dropped; the return path of a source-routed packet is learned. A packet from the local application "
                "goes out once: locally, as a global broadcast, to the known router, or it waits -- complete with its final destination -- while the path is asked for exactly "
-               "once. A router answers Who-Is-Router-To-Network only with networks it reaches through another attached network than the one the question came from.")
+               "once. When the I-Am-Router-To-Network arrives the path is learned, every packet that waited for an announced network goes out exactly once, in order, to the announcing router with its final destination intact, packets for other networks keep waiting, and a router passes the announcement on once to each of its other networks. A router answers Who-Is-Router-To-Network only with networks it reaches through another attached network than the one the question came from.")
 LEVEL_TEXT = "Proof per entry point over representative node shapes and destination classes; hop count and payload symbolic."
 LEVEL_NOTE = "Trusted: pyvc (cross-checked against CPython every run), z3/cvc5, the per-node to whole-topology composition."
